@@ -365,6 +365,9 @@ func runRemainderFixup(c *Ctx, r *Rep, funcs [][2]string) {
 		params := fd.Type.Params.List
 		last := params[len(params)-1]
 		div := last.Names[len(last.Names)-1].Name
+		normAlias = nil
+		normAlias = aliasesOf(info, fd.Body, div)
+		defer func() { normAlias = nil }()
 		// flags computed from the sign of the divisor
 		signVars := map[string]bool{}
 		for pass := 0; pass < 3; pass++ {
